@@ -24,6 +24,12 @@ impl Program {
         self.link.append(link)
     }
 
+    #[cfg(ae9rb_basic_lang_verif)]
+    pub fn verif_sizes(&self) -> (usize, usize, usize, Address) {
+        let (data_len, data_pos) = self.link.verif_data();
+        (self.link.len(), data_len, data_pos, self.direct_address)
+    }
+
     pub fn get(&self, addr: Address) -> Option<Opcode> {
         self.link.get(addr).cloned()
     }
